@@ -1,6 +1,7 @@
 mod common;
 mod c01;
 mod c02;
+mod c03;
 mod c04;
 mod c05;
 mod c07;
@@ -57,6 +58,7 @@ fn main() {
             let out = &args[5];
             match sub.as_str() {
                 "C01" => c01::record(seed, n, out),
+                "C03" => { c03::record(&args[6], &args[7], seed, n, out); std::process::exit(0) }
                 "C04" => c04::record(seed, n, out, args.get(6).and_then(|s| s.parse().ok()).unwrap_or(300)),
                 "C05" => c05::record(seed, n, out, args.get(6).and_then(|s| s.parse().ok()).unwrap_or(12)),
                 "C09" => { let _ = (seed, n); c09::record(&args[6], out) }
